@@ -194,7 +194,39 @@ def run_case(args):
     c = gen_opt_case(rng, obs, tier) if k % 3 == 2 else gen_case(rng, obs, tier)
     if c is None:
         return None
+    if k % 3 != 2 and rng.random() < 0.6:
+        inst = tune_limit(d, k, inst, c, rng)
     return run_trans(d, k, inst, c)
+
+
+def tune_limit(d, k, inst, c, rng):
+    """Cases that gather all vehicles in one cycle and reorder it: choose maximalDistance so that the cycle's counter sits
+    a little above zero before the first 3-opt, so that reorderings cross zero in both directions (seeded C15f: the
+    violation total after replace_cycle when a cycle goes from above the limit to strictly below it). A first run with
+    maximalDistance 0 reads the cycle's total distance off its counter."""
+    tops = c["tops"]
+    first = next((j for j, o in enumerate(tops) if o[0] == "threeopt" and j > 0 and any(x[0] == "new" for x in tops[:j])
+                  and tops[j - 1][0] == "move"), None)
+    m = sum(1 for p in c["paths"] if any(str(n).startswith("main_") for n in p))
+    if first is None or m == 0:
+        return inst
+    i0 = json.loads(json.dumps(inst))
+    i0["parameters"]["maintenance"] = {"maximalDistance": 0}
+    cpath = os.path.join(d, "c%d.pre.json" % k)
+    with open(cpath, "w") as f:
+        json.dump({"instance": i0, "ty": c["ty"], "paths": c["paths"], "tops": tops[:first]}, f)
+    hout = os.path.join(d, "c%d.pre.impl" % k)
+    if lib.run_harness("trans", cpath, hout) != "OK":
+        return inst
+    cy = [l for l in lib.read_lines(hout) if l.startswith("CY 0 ")]
+    if not cy:
+        return inst
+    total = int(cy[-1].split()[2])
+    if total <= 0:
+        return inst
+    i2 = json.loads(json.dumps(inst))
+    i2["parameters"]["maintenance"] = {"maximalDistance": max(1, (total - rng.randrange(1, 6000)) // m)}
+    return i2
 
 
 def run_trans(d, k, inst, c):
@@ -275,7 +307,7 @@ def main(tier, seed):
     d = lib.casedir(PID)
     gen = [instgen.gen_instance(rng, {"slots": rng.choice(["some", "some", "none"]),
                                       "depots": rng.choice(["ample", "absent", "ample", "scarce"]),
-                                      "maxdist": rng.choice(["small", "mid", "large", "absent"])}) for _ in range(n)]
+                                      "maxdist": rng.choice(["small", "mid", "large", "absent", "spread", "spread", "spread"])}) for _ in range(n)]
     results = []
     for k, c in enumerate(lib.load_corpus_cases(PID)):
         results.append(run_trans(d, k, c["instance"], c))
